@@ -179,6 +179,10 @@ def run_doc_case(case, env, focus, stats, syntax_compilers=()):
             targets = target_set(w)
             w.active = True
             kinds = ["construct", "setup"] + [g["kind"] for g in h["groups"]]
+            always_state = {}
+            for op in h["init"]["ops"]:
+                if op[0] == "always":
+                    always_state[op[1]] = bool(op[2])
             failed = False
             prev = None
             for oi, ob in enumerate(obs):
@@ -221,13 +225,17 @@ def run_doc_case(case, env, focus, stats, syntax_compilers=()):
                             v["group"] = -1
                         viol += vv
                     if g is not None and not vs:
-                        vv = check_effects(doc, names, mapping, g, prev, ob, targets, where, probes)
+                        vv = check_effects(doc, names, mapping, g, prev, ob, targets, where, probes, always_state)
                         for v in vv:
                             v["history"] = hi
                             v["group"] = oi - 2
                         viol += vv
                         if vv:
                             failed = True
+                if g is not None:
+                    for op in g["ops"]:
+                        if op[0] == "always":
+                            always_state[op[1]] = bool(op[2])
                 track_probes(ob, prev, g, probes, w)
                 prev = ob
                 if failed:
@@ -320,6 +328,12 @@ def check_wiring(w, doc, names, ob, where):
     for (o, key), h in sorted(w.handlers.items()):
         name = key.split("(")[0]
         live = [c for c in ob["conns"] if c[0] == o and c[3] and c[1].split("::", 1)[1].split("(")[0] == name]
+        if h.get("notify"):
+            # bindings subscribe to notify signals too, so the table cannot tell whose connection is whose;
+            # multiplicity is decided behaviourally (a handler connected twice doubles its effects)
+            if not any(c[1].split("::", 1)[1] == key for c in live):
+                out.append(V("wiring", "c13:wrong-overload", "%s: handler %s on %s: no live connection to %s (live: %s)" % (where, h["on"], o, key, live)))
+            continue
         if len(live) != 1:
             out.append(V("wiring", "c13:connection-count", "%s: handler %s on %s has %d live connections to a signal named %s: %s"
                          % (where, h["on"], o, len(live), name, live)))
@@ -330,49 +344,50 @@ def check_wiring(w, doc, names, ob, where):
     return out
 
 
-def check_effects(doc, names, mapping, g, prev, ob, targets, where, probes):
-    """C13 oracle for one event group: handler-channel trace and non-target state equal the
-    reference interpreter's, starting from the previously observed state."""
+def check_effects(doc, names, mapping, g, prev, ob, targets, where, probes, always_state):
+    """C13 oracle for one event group: the handler-channel trace (calls, logs, writes to properties that are not
+    binding targets - including the scheduler's own writes and everything handlers on notify signals do in
+    response) and the non-target state equal the reference interpreter's, starting from the previously observed state."""
     out = []
-    emits = [op for op in g["ops"] if op[0] == "emit"]
-    if not emits or len(g["ops"]) != 1:
-        return out
     w = world.build_world(doc, names)
     w.active = True
-    # objects alive at this point = those observed before
-    for o in list(w.cls):
-        if o not in prev["state"] and o in w.props and o != doc["root"]["id"] and not any(o == n for n in names):
-            pass
+    w.always = dict(always_state)
     for o in prev["state"]:
         if o not in w.cls:
-            cls = None
-            # externals: class is recoverable from the observed property set
+            # externals: the class is recoverable from the observed property set
             props = set(prev["state"][o])
-            cls = "SimModel" if "title" in props else ("SimPanel" if "level" in props else "SimWidget")
-            w.add_object(o, cls)
+            w.add_object(o, "SimModel" if "title" in props else ("SimPanel" if "level" in props else "SimWidget"))
     adopt(w, prev["state"], set())
     try:
         w.recompute()
-        exp = world.apply_op(w, emits[0], mapping)
+        exp = world.apply_group(w, g["ops"], mapping)
     except model.Undefined as e:
-        _bump(probes, "emissions_skipped_model_undefined")
+        _bump(probes, "groups_skipped_model_undefined")
+        return out
+    except KeyError:
+        _bump(probes, "groups_skipped_model_undefined")
         return out
     exp_lines = world.handler_channel([world.trace_line(w, e) for e in exp], targets)
     got_lines = world.handler_channel(ob["trace"], targets)
-    op = emits[0]
-    has_handler = (mapping.get(op[1], op[1]), op[2]) in w.handlers
-    _bump(probes, "emissions_with_handler" if has_handler else "emissions_without_handler")
-    if has_handler:
-        _bump(probes, "handler_effects_compared", len(exp_lines))
-        if any(l.startswith("set") for l in ob["trace"] if l not in got_lines):
-            _bump(probes, "emissions_whose_handler_woke_a_binding")
+    emits = [op for op in g["ops"] if op[0] == "emit"]
+    with_handler = [op for op in emits if (mapping.get(op[1], op[1]), op[2]) in w.handlers]
+    _bump(probes, "emissions_with_handler", len(with_handler))
+    _bump(probes, "emissions_without_handler", len(emits) - len(with_handler))
+    _bump(probes, "handler_effects_compared", len(exp_lines))
+    if w.notify_fired:
+        _bump(probes, "notify_handlers_run_inside_a_setter", w.notify_fired)
+    if w.max_handler_depth >= 2:
+        _bump(probes, "groups_with_nested_handlers_depth_2_or_more")
+    if with_handler and any(l.startswith("set") for l in ob["trace"] if world.canon_line(l) not in got_lines):
+        _bump(probes, "emissions_whose_handler_woke_a_binding")
+    desc = "; ".join(g["lines"][:4]) + (" ..." if len(g["lines"]) > 4 else "")
     if exp_lines != got_lines:
         k = 0
         while k < min(len(exp_lines), len(got_lines)) and exp_lines[k] == got_lines[k]:
             k += 1
-        key = "c13:effects-differ" if has_handler else "c13:unexpected-effects"
-        out.append(V("effects", key, "%s: EMIT %s %s %s\n  first difference at effect %d:\n  reference: %s\n  observed:  %s\n  reference trace: %s\n  observed trace:  %s"
-                     % (where, op[1], op[2], op[3], k, exp_lines[k] if k < len(exp_lines) else "<end>", got_lines[k] if k < len(got_lines) else "<end>",
+        key = "c13:effects-differ" if (with_handler or w.notify_fired) else "c13:unexpected-effects"
+        out.append(V("effects", key, "%s: %s\n  first difference at effect %d:\n  reference: %s\n  observed:  %s\n  reference trace: %s\n  observed trace:  %s"
+                     % (where, desc, k, exp_lines[k] if k < len(exp_lines) else "<end>", got_lines[k] if k < len(got_lines) else "<end>",
                         pretty(exp_lines), pretty(got_lines))))
         return out
     # state of everything that is not a binding target
@@ -383,7 +398,7 @@ def check_effects(doc, names, mapping, g, prev, ob, targets, where, probes):
             if (o, p) in targets:
                 continue
             if not world.values_equal(gen.untok(t), w.props[o][p]):
-                out.append(V("effects", "c13:state-differs", "%s: after EMIT %s %s: %s.%s observed %r, reference %r" % (where, op[1], op[2], o, p, gen.untok(t), w.props[o][p])))
+                out.append(V("effects", "c13:state-differs", "%s: after %s: %s.%s observed %r, reference %r" % (where, desc, o, p, gen.untok(t), w.props[o][p])))
                 return out
     return out
 
